@@ -114,4 +114,17 @@ PROPS = {
                 "overflow checks (the crate's dev profile).  non-trivial: every case; distinct = distinct case line",
         "assumptions": ["translations are accepted as multiples of 1/12 when within 12*2^-50 of one (the table stores 1/3, 1/6 as rounded doubles)"],
     },
+    "C13": {
+        "translators": [],
+        "count": {"quick": 200, "thorough": 2000},
+        "rule": "matrices with entries on a 1/4 (chains: 1/2) grid and points on a 1/8 grid, where every product and sum is exact in binary64, so apply, "
+                "combine and chains of 1..3 (4 thorough) factors (combined-then-applied and applied one after the other) are compared bit for bit with the "
+                "exact rational model; constructors identity / translation / magnify / scale; rotation_x/y/z for special and random angles: exact shape of "
+                "the matrix and c^2+s^2 = 1 within 2^-50, and apply within the forward error bound 4u(sum|m||p|+|t|) of the exact value (also for general "
+                "random matrices); apply_transformation and par_apply_transformation at the six levels on random structures with grid positions under "
+                "pools of 1,4,16 (1,2,3,4,8,16 thorough) threads, full snapshots compared (frame: everything but the positions of the addressed atoms).  "
+                "non-trivial: every case except one-factor chains; distinct = distinct case line",
+        "assumptions": ["the forward error bound of the fused multiply-add evaluation is stated, not proved (a Flocq development would be needed); it is only used for non-grid inputs",
+                        "sin/cos come from libm; the theorem needs c^2+s^2=1, the check measures it within 2^-50"],
+    },
 }
